@@ -94,6 +94,17 @@ def gabriel_graph_diag_first(d2):
     return g
 
 
+def gabriel_graph_assigned(d2):
+    # starts from "no edge"; every pair j >= i is assigned its verdict directly, the diagonal cleared last
+    n = d2.shape[0]
+    g = np.zeros((n, n), dtype=bool)
+    for i in range(n):
+        for j in range(i, n):
+            g[i, j] = g[j, i] = np.sum(d2[i] + d2[j] < d2[i, j]) == 0
+        g[i, i] = False
+    return g
+
+
 def gabriel_graph_rowwise(d2):
     # all partners j >= i of one point at a time
     n = d2.shape[0]
